@@ -233,4 +233,84 @@ theorem nested_nodes_use_only_the_supported_vocabulary (name : Bytes) (args extr
     have := resolved_names_are_vocabulary_words _ hv _ _ hd
     rwa [hk] at this
 
+/-- **the tags each command admits are exactly the supported ones** (frozen, hand-written): a tag that wandered from
+    one command's definition into another's (a shared table entry, a copy-and-paste) breaks this obligation -/
+theorem live_table_admits_exactly_the_supported_tags : Spec.TagsExactly Generated.builtinTable = true := by
+  decide +kernel
+
+/-- a tag admitted by the value list of a tag slot of a definition is one of the tags the frozen vocabulary gives that
+    command (with `accepted_scripts_have_correctly_typed_arguments`: every tag recorded in an accepted tree sits in such a slot) -/
+theorem listed_tags_are_supported_tags (T : Table) (hT : Spec.TagsExactly T = true) (d : CmdDef) (hd : d ∈ T)
+    (slot : ArgDef) (hs : slot ∈ d.args) (htag : ArgType.tag ∈ slot.types) (t : Bytes)
+    (ht : t ∈ (slot.values.getD []) ++ slot.extValues.map (·.1)) : t ∈ Spec.frozenTags d.name := by
+  have h0 := List.all_eq_true.1 hT d hd
+  rw [Bool.and_eq_true] at h0
+  have h2 := List.all_eq_true.1 h0.1 t (by
+    unfold Spec.tagsOf
+    refine List.mem_flatMap.2 ⟨slot, hs, ?_⟩
+    simp only [htag, decide_true, if_true]
+    exact ht)
+  simpa using h2
+
+/-- every tag slot of the table restricts its tags to a list (none takes "any tag") -/
+def TagSlotsListed (T : Table) : Bool :=
+  T.all (fun d => d.args.all (fun a => !decide (ArgType.tag ∈ a.types) || a.values.isSome || !a.extValues.isEmpty))
+
+theorem live_table_tag_slots_listed : TagSlotsListed Generated.builtinTable = true := by decide +kernel
+
+/-- **every tag in an accepted tree is a tag of its command** (frozen vocabulary): a tag token recorded as an argument of a
+    node of an accepted script is, lower-cased, one of the tags the hand-written vocabulary gives that node's command -/
+theorem accepted_tags_are_supported_tags (TokP : Tok → Prop) (name : Bytes) (args extra : List Arg) (children : List Node)
+    (c : List Bytes) (k : String) (raw : Bytes)
+    (h : Typed.NodeT TokP Generated.builtinTable (.mk name args extra children c))
+    (ha : Arg.str k raw ∈ args)
+    (htagtok : ∀ tok : Tok, TokP tok → tok.text = raw → tok.kind = .tag) :
+    B.lower raw ∈ Spec.frozenTags name := by
+  obtain ⟨d, hnamed, hname, slot, hs, _, hval, tok, t, htok, htext, hvt, hk⟩ :=
+    typed_argument_facts TokP Generated.builtinTable name args extra children c k raw h ha
+  have hkind := htagtok tok htok htext
+  have ht : t = .tag := by
+    rcases hk with ⟨hk1, _⟩ | ⟨hk1, _⟩ | ⟨_, ht⟩
+    · rcases hk1 with hk1 | hk1 <;> (rw [hkind] at hk1; cases hk1)
+    · rw [hkind] at hk1; cases hk1
+    · exact ht
+  subst ht
+  have htag : ArgType.tag ∈ slot.types := by
+    simp only [Args.validType, Bool.or_eq_true, decide_eq_true_eq, Bool.and_eq_true, beq_iff_eq] at hvt
+    rcases hvt with hvt | ⟨hvt, _⟩
+    · exact hvt
+    · cases hvt
+  have hd : d ∈ Generated.builtinTable := by
+    obtain ⟨tk, _, _, hl⟩ := hnamed
+    unfold Table.lookup Table.findKey at hl
+    exact List.mem_of_find?_eq_some hl
+  have hlisted := List.all_eq_true.1 (List.all_eq_true.1 live_table_tag_slots_listed d hd) slot hs
+  have hmem : B.lower raw ∈ (slot.values.getD []) ++ slot.extValues.map (·.1) := by
+    rcases hval with ⟨h1, h2⟩ | h1 | h1
+    · simp [htag, h1, h2] at hlisted
+      cases hv : slot.values with
+      | none => rw [hv] at hlisted; cases hlisted
+      | some vs => rw [hv] at h1; cases h1
+    · cases hv : slot.values with
+      | none => simp [Args.inValues, hv] at h1
+      | some vs =>
+        simp only [Args.inValues, hv, decide_eq_true_eq] at h1
+        simp [hv, h1]
+    · simp only [Args.extLookup, Option.isSome_map] at h1
+      cases hf : slot.extValues.find? (fun p => p.1 == B.lower raw) with
+      | none => simp [hf] at h1
+      | some p =>
+        have hm := List.mem_of_find?_eq_some hf
+        have hp := List.find?_some hf
+        have : p.1 = B.lower raw := by simpa using hp
+        refine List.mem_append_right _ (List.mem_map.2 ⟨p, hm, this⟩)
+  rw [← hname]
+  exact listed_tags_are_supported_tags _ live_table_admits_exactly_the_supported_tags d hd slot hs htag _ hmem
+
+/-- **each tag takes exactly the parameter the frozen vocabulary gives it** — the kinds admitted (string / number / string list)
+    and, where the RFCs close it, the value set (comparators, relational operators); a value added to or lost from such a list,
+    a parameter that wandered to another tag, a type widened or narrowed breaks this obligation -/
+theorem live_table_gives_tags_their_supported_parameters : Spec.ParamsExactly Generated.builtinTable = true := by
+  decide +kernel
+
 end C01
